@@ -21,6 +21,7 @@ import (
 	"net"
 	"sort"
 	"strings"
+	"sync"
 	"sync/atomic"
 	"testing"
 	"time"
@@ -28,6 +29,7 @@ import (
 	"github.com/emersion/go-message/textproto"
 	"github.com/emersion/go-smtp"
 	"github.com/foxcpp/maddy/framework/buffer"
+	"github.com/foxcpp/maddy/framework/log"
 	"github.com/foxcpp/maddy/framework/module"
 	_ "github.com/foxcpp/maddy/internal/table"
 	"github.com/foxcpp/maddy/internal/target/remote"
@@ -51,9 +53,12 @@ const (
 func TestVerif(t *testing.T) {
 	r := rep.Open("C09")
 	defer r.Close()
-	nRemote := r.N(700, 14000)
-	nLMTP := r.N(400, 8000)
-	nPipe := r.N(400, 8000)
+	// target.smtp / target.lmtp log through the default logger; the (expected)
+	// "QUIT error" lines after scripted connection drops would swamp the shard logs.
+	log.DefaultLogger.Out = log.NopOutput{}
+	nRemote := r.N(1000, 120000)
+	nLMTP := r.N(600, 60000)
+	nPipe := r.N(600, 60000)
 	for i := 0; i < nRemote; i++ {
 		idx := baseRemote + i
 		r.Run(idx, fmt.Sprintf("remote-%d", i), func(c *rep.Case) { runRemote(t, r, c, idx) })
@@ -352,6 +357,28 @@ func runRemote(t *testing.T, r *rep.Reporter, c *rep.Case, idx int) {
 		if judged {
 			countCalls(r, "remote", calls)
 			r.Count("remote_transactions_judged", 1)
+			if openFail {
+				r.Count("remote_body_open_failures", 1)
+			}
+			accNow := map[string]bool{}
+			for _, a := range lt.Accepted {
+				accNow[a] = true
+			}
+			staleOpp := false
+			for a := range earlier {
+				_, sp := splitAddr(a)
+				if accNow[a] {
+					continue
+				}
+				for _, rec := range facts[sp].recs {
+					if rec.N > 1 {
+						staleOpp = true
+					}
+				}
+			}
+			if staleOpp {
+				r.Count("remote_transactions_on_reused_connection_with_other_rcpts", 1)
+			}
 			fs := judgeLeaf(lt)
 			report(r, c, fs, wit)
 			for i, a := range lt.Accepted {
@@ -457,10 +484,9 @@ func runLMTP(t *testing.T, r *rep.Reporter, c *rep.Case, idx int) {
 			shape = append(shape, "[start-refused]")
 			continue
 		}
+		// target.lmtp opens a connection per delivery: there is no reuse, so no
+		// "earlier transaction" cause class (Earlier stays empty).
 		lt := &leafTxn{Kind: "lmtp", Earlier: map[string]bool{}}
-		for k := range earlier {
-			lt.Earlier[k] = true
-		}
 		rcptErr := map[string]string{}
 		for _, a := range rcpts {
 			lt.Supplied = append(lt.Supplied, a)
@@ -566,6 +592,9 @@ func runLMTP(t *testing.T, r *rep.Reporter, c *rep.Case, idx int) {
 		lt.Calls = calls
 		countCalls(r, "lmtp", calls)
 		r.Count("lmtp_transactions_judged", 1)
+		if openFail {
+			r.Count("lmtp_body_open_failures", 1)
+		}
 		report(r, c, judgeLeaf(lt), wit)
 		nontrivial = true
 		mixed := map[fate]bool{}
@@ -604,6 +633,29 @@ func runLMTP(t *testing.T, r *rep.Reporter, c *rep.Case, idx int) {
 }
 
 // ---------------------------------------------------------------- pipeline
+
+// The configuration grammar has no way to reference an existing modifier
+// instance inside a modify block, so the scripted body modifier is reached
+// through a module factory keyed by the case tag: "c09_bodymod <tag>".
+var (
+	bodyModsMu sync.Mutex
+	bodyMods   = map[string]*mx.ScriptModifier{}
+)
+
+func init() {
+	module.Register("modify.c09_bodymod", func(_, _ string, _, inlineArgs []string) (module.Module, error) {
+		if len(inlineArgs) != 1 {
+			return nil, errors.New("c09_bodymod: one argument expected")
+		}
+		bodyModsMu.Lock()
+		defer bodyModsMu.Unlock()
+		m := bodyMods[inlineArgs[0]]
+		if m == nil {
+			return nil, errors.New("c09_bodymod: unknown tag " + inlineArgs[0])
+		}
+		return m, nil
+	})
+}
 
 func hash01(parts ...string) float64 {
 	h := fnv.New64a()
@@ -685,6 +737,24 @@ func runPipe(t *testing.T, r *rep.Reporter, c *rep.Case, idx int) {
 		tgts = append(tgts, st)
 	}
 
+	// a global modifier whose body stage fails for some messages: the pipeline
+	// then has to fail every accepted recipient itself (no target sees the body)
+	bodyMod := mx.NewModifier(tag+"_mod", lg)
+	bodyMod.Body = func(mp mx.ModPoint, h *textproto.Header) error {
+		if hash01(salt, "modbody", mp.MsgID) < 0.08 {
+			return mx.MakeErr(mx.Temp, 2, "modifier body")
+		}
+		return nil
+	}
+	bodyModsMu.Lock()
+	bodyMods[tag] = bodyMod
+	bodyModsMu.Unlock()
+	defer func() {
+		bodyModsMu.Lock()
+		delete(bodyMods, tag)
+		bodyModsMu.Unlock()
+	}()
+
 	// client recipients (keys are the lower-case forms)
 	nC := p.Range(2, 6)
 	var clients []string
@@ -755,6 +825,7 @@ func runPipe(t *testing.T, r *rep.Reporter, c *rep.Case, idx int) {
 	}
 
 	var sb strings.Builder
+	fmt.Fprintf(&sb, "modify {\n    c09_bodymod %s\n}\n", tag)
 	sb.WriteString(tableText("", global))
 	sb.WriteString("destination d1.example {\n")
 	sb.WriteString(tableText("    ", level2[1]))
@@ -833,9 +904,15 @@ func runPipe(t *testing.T, r *rep.Reporter, c *rep.Case, idx int) {
 		// what failed at the targets
 		failedAt := map[eff]bool{}
 		wholeFail := map[int]bool{}
+		modFail := false
 		var tlog []string
 		for _, e := range evs {
 			switch e.Kind {
+			case "mod.body":
+				if e.Class != mx.OK {
+					modFail = true
+					tlog = append(tlog, e.String())
+				}
 			case "status":
 				if e.Class != mx.OK {
 					failedAt[eff{e.Delivery, e.Rcpt}] = true
@@ -866,7 +943,14 @@ func runPipe(t *testing.T, r *rep.Reporter, c *rep.Case, idx int) {
 			return len(ownersOf[e]) > 1 || (e != a && suppliedSet[e])
 		}
 		nFailed := 0
+		if modFail {
+			r.Count("pipe_transactions_failed_by_body_modifier", 1)
+		}
 		for a := range pt.Accepted {
+			if modFail {
+				pt.Failed[a] = true
+				pt.FailedClean[a] = true
+			}
 			for _, ef := range effOf[a] {
 				if shared(a, ef.rcpt) {
 					pt.Entangled[a] = true
